@@ -55,7 +55,9 @@ def stopAlloc (s : St) : St :=
                opened.map (fun i => "close:" ++ fileName s.cfg i),
              fileExists := (List.range s.cfg.flens.length).map (fun i => s.fileExists.getD i false || opened.contains i),
              known := (List.range s.cfg.flens.length).map (fun i => s.known.getD i false || opened.contains i),
-             leaked := s.leaked }
+             leaked := s.leaked,
+             bf := if opened.any (fun i => !(s.fileExists.getD i false)) then none else s.bf,
+             persisted := if opened.any (fun i => !(s.fileExists.getD i false)) && s.bf.isSome then none else s.persisted }
   else s
 def stopVer (s : St) : St := if s.verifier then { s with verifier := false, gateRead := false } else s
 def stopFin (s : St) : St := { s with stopAnn := true }
@@ -143,9 +145,13 @@ def hadFresh (m : M) : M :=
 def hadTrust (m : M) (b : List Bool) : M :=
   hadCheck (onSt m fun s => ({ s with done := b }).markPaddingPieces)
 
+/-- files were missing: the bitfield is forgotten, also in the resume db (fix for finding C05-F1) -/
+def hadForget (m : M) (hasMissing : Bool) : M :=
+  onSt m fun s => if hasMissing && s.bf.isSome then { s with bf := none, persisted := none } else s
+
 theorem handleAllocationDone_eq (m : M) (hasExisting hasMissing : Bool) :
     handleAllocationDone m hasExisting hasMissing =
-      let m := hadInstall m
+      let m := hadForget (hadInstall m) hasMissing
       match m.1.bf with
       | some b =>
         if !hasMissing then hadTrust m b
